@@ -241,17 +241,10 @@ func init() {
 	normString := func(m *Machine, fn *ssa.Function, a []Value) Value {
 		s := a[1].(StringVal)
 		ts := m.stringTerms(s)
-		ascii := m.tt.T
-		for _, b := range ts {
-			ascii = m.tt.And(ascii, m.tt.Ult(b, m.tt.Const(0x80, 8)))
-		}
-		if !ascii.IsTrue() {
-			if v, ok := m.knownVal(ascii); !ok || !v {
-				// only ASCII (where NFC is the identity) is modelled
-				if !m.branch(ascii) {
-					m.unsupported("norm.NFC.String on non-ASCII symbolic string")
-				}
-			}
+		// contract: IsNormal(s) => String(s) == s (ASCII is always normal)
+		normal := m.asciiOrUF("nfcnormal", ts)
+		if !m.branch(normal) {
+			m.unsupported("norm.NFC.String on a symbolic string that is not known to be NFC-normal")
 		}
 		return s
 	}
@@ -524,6 +517,11 @@ func (m *Machine) addFact(t *Term) {
 	}
 	if m.path.live {
 		m.sol.Assert(t)
+	}
+	if p := m.path; p.ev != nil {
+		if v, ok := p.ev.eval(t); !ok || v != 1 {
+			p.ev = nil
+		}
 	}
 }
 
